@@ -397,6 +397,13 @@ def c02g(ctx):
 
 
 def run(ctx):
+    # "a dependency recorded by one of many callers is never lost": the caller sets are key-of-set entries - their cold
+    # loader, staging overlay and merging reader must not drop a member (C09.g staging / C09.i), evaluated here as C02.h
+    from . import C09
+    ctx.alias = {"C09.g": "C02.h", "C09.i": "C02.h"}
+    ctx.run_clause("C02.h", C09.c09g_staging)
+    ctx.run_clause("C02.h", C09.c09i)
+    ctx.alias = {}
     ctx.run_clause("C02.f", c02f)
     ctx.run_clause("C02.g", c02g)
     for c, f in (("C02.a", c02a), ("C02.b", c02b), ("C02.c", c02c), ("C02.c", c02c2), ("C02.d", c02d), ("C02.e", c02e)):
